@@ -19,6 +19,33 @@ CLAIMED = {
    "Kani cannot execute; stubbed), BigInt x BigInt, floats/Dec, non-numeric operators and integer consumers are outside the claim.",
    "Stubs: <BigInt as Add/Sub/Mul<BigInt>> replaced by a dummy where only the promotion decision is asserted. % with a symbolic divisor is "
    "not decided by CBMC (divider circuits) and is left to engine E2 / outside."),
+ "C03": ("§4 C03",
+   "Bounded model checking of jaq-core's single-output fast paths against a counting source iterator with an ARBITRARY lawful size_hint: "
+   "next_if_one, map_with and collect_if_once never consume an item of a stream that may have more than one pending output, and map_with "
+   "consumes exactly k source items for k outputs. Narrow: every interpreter arm (Comma, Alt, label, try), flat_map_* (undecided: CBMC's "
+   "over-approximated dyn dispatch), Stack, the lazy list, first/limit, inputs and the CLI loop are outside the claim.",
+   "Sources of <= 3 u8 items; instantiation Iterator = harness type Src. Thorough tier retries the flat-map, Stack and lazy-list harnesses under a 40 min cap."),
+ "C05": ("§4 C05",
+   "Bounded model checking of panic-freedom (Kani's overflow / cast / bounds / unwrap checks, dev-profile semantics) for jaq's own numeric kernels: "
+   "implode on any isize, round/floor/ceil on any f64, Num::length on any isize/f64, broken-down-time conversion on any six isize fields and any f64 seconds; "
+   "plus (engine E2) every arithmetic-overflow assertion in the MIR of the listed time / slicing functions under havoc'd callees. Narrow: lexer, parser, compiler, "
+   "format decoders, diagnostics rendering and panics reachable only through the interpreter are outside the claim.",
+   "alloc::fmt::format and jiff::Error's Display are stubbed where error TEXT is not the subject; generic code instantiated at the harness value type MV."),
+ "C12": ("§4 C12",
+   "Bounded model checking of floor/round/ceil (jaq-std ValTx::round) for ALL f64: a machine-integer result equals the IEEE-rounded value exactly (i128 comparison), "
+   "values beyond +-2^63 take the big-number path, integers and non-finite values pass through. Narrow: only this one built-in of the property's list; "
+   "sort_by/group_by/min_by/max_by engines did not decide (Vec/Exn drop glue) and every jq-defined filter is outside the claim.",
+   "alloc::fmt::format stubbed; V = MV."),
+ "C15": ("§4 C15",
+   "Bounded model checking of operator precedence: the real `impl Op for BinaryOp` is order-isomorphic to the manual's table for all 25 operators (625 pairs) with the "
+   "documented associativity; prec_climb::climb groups `a op1 b op2 c` as the table says for one operator per level (49 pairs quick, 144 thorough); "
+   "`a as $x | b op c` always binds `b op c` (real Term::climb). Narrow: lexer trivia, atoms, postfix `?`, and every shorthand are outside the claim.",
+   "climb1 is decided with operators carrying the table's levels (shown isomorphic to the real precedences by a separate harness), because a symbolic BinaryOp does not decide."),
+ "C20": ("§4 C20",
+   "Bounded model checking of the time kernels at V = MV: broken-down arrays over ANY six isize fields never overflow and are accepted only with every field in its calendar "
+   "range (DateTime carrying exactly those fields); ANY f64 seconds: NaN/inf/out-of-range rejected, accepted => floor; float epochs: NaN rejected, result == trunc(f*1e6). "
+   "Narrow: jiff's calendar arithmetic vs an independent days-from-civil, strftime/strptime, ISO text, time zones, and mktime/gmtime's zoned conversions are outside the claim.",
+   "jiff::Error's Display stubbed; jiff's own range checks are executed (DateTime::new) but Timestamp::from_second/from_microsecond error paths do not decide and are outside."),
  "C10": ("§4 C10",
    "Bounded model checking of the position kernels (PosUsize::wrap, abs_bound, abs_index, skip_take, Val::range_int, Num::as_pos_usize) "
    "against an independent i128 position model: for ALL usize lengths and ALL signed positions (full usize magnitude, so big-integer "
